@@ -26,10 +26,10 @@ for pid, fns in groups.items():
     s = open(path).read()
     block = [BEGIN, '', 'namespace ExpectCalc', 'open GoblVerif.Generated.Calc', '']
     for fn in fns:
-        for kind in ('calls', 'conds'):
+        for kind in ('calls', 'conds', 'stmts'):
             name = f'{kind}_{fn}'
             if name not in defs: sys.exit(f'missing fact {name}')
-            block.append(f'theorem {name}_as_modelled : {name} =\n    {defs[name]} := by decide')
+            block.append(f'theorem {name}_as_modelled : {name} =\n    {defs[name]} := rfl')
     block += ['', 'end ExpectCalc', '']
     text = '\n'.join(block)
     if BEGIN in s:
@@ -40,4 +40,4 @@ for pid, fns in groups.items():
     if 'import GoblVerif.Generated.CalcFacts' not in s:
         s = re.sub(r'(?m)^(import GoblVerif\.Spec\.' + pid + r')$', r'\1\nimport GoblVerif.Generated.CalcFacts', s, count=1)
     open(path, 'w').write(s)
-    print(pid, len(fns) * 2, 'pinned')
+    print(pid, len(fns) * 3, 'pinned')
